@@ -57,7 +57,7 @@ fn zones(a: &Args, rng: &mut Rng, all_system: bool) -> Vec<ZoneSrc> {
     if let Some(dir) = a.opt("zones") {
         out.extend(tzcorpus::tzif_files(&format!("{dir}/slim"), "synthetic-slim", &[]));
     }
-    for (i, s) in tzcorpus::POSIX_FIXED.iter().enumerate().take(if a.quick() { 8 } else { 100 }) {
+    for (i, s) in tzcorpus::POSIX_FIXED.iter().enumerate().filter(|(i, _)| !a.quick() || *i < 8 || tzcorpus::QUICK_FIXED.contains(i)) {
         out.push(ZoneSrc { name: format!("posix-fixed-{i}"), class: "posix-string".into(), bytes: s.as_bytes().to_vec() });
     }
     if let Some(o) = a.opt("zone") {
